@@ -210,6 +210,85 @@ def make_pmap(spec):
     return body
 
 
+def make_runs(spec):
+    """two independent parproc() calls in ONE process: the consumer stops the first run after a solver-chosen number of results (or a payload
+    function raises KeyboardInterrupt there); the second run must still yield exactly one correct result per payload (sequential and single-task
+    modes; the stop event of a run belongs to that run)"""
+    import sys as _sys
+    import threading
+    from tatsu.parproc import task as taskmod
+    from tatsu.parproc.parproc import parproc
+    N = spec['n']
+    parprocmod = _sys.modules[parproc.__module__]
+
+    class FakeMP:
+        class _Mgr:
+            def Event(self):
+                return threading.Event()
+
+        def Manager(self):
+            return FakeMP._Mgr()
+
+        def cpu_count(self):
+            return 2
+
+    def native(stop_after, how, n2):
+        real_mp, real_mem = parprocmod.multiprocessing, taskmod.memory_use
+        try:
+            parprocmod.multiprocessing = FakeMP()
+            taskmod.memory_use = lambda: 0
+            first = []
+
+            def work1(payload):
+                if how == 1 and payload.i == stop_after:
+                    raise KeyboardInterrupt
+                return work(payload)
+            try:
+                for k, r in enumerate(parproc(work1, [P(i, False) for i in range(N)], parallel=False)):
+                    first.append(r)
+                    if how == 0 and k + 1 == stop_after:
+                        r.stop.set()
+            except KeyboardInterrupt:
+                pass
+            payloads = [P(i, i == 1) for i in range(n2)]
+            try:
+                second = list(parproc(work, payloads, parallel=False))
+            except Exception as e:  # noqa: BLE001
+                return False, 'second-run-raised', type(e).__name__ + ': ' + str(e)[:80]
+        finally:
+            parprocmod.multiprocessing = real_mp
+            taskmod.memory_use = real_mem
+        got = sorted((r.payload.i, r.outcome, type(r.exception).__name__ if r.exception is not None else None) for r in second)
+        want = sorted((p.i, None if p.bad else p.i * 10, ('SubDeclaredError' if p.i % 2 else 'DeclaredError') if p.bad else None) for p in payloads)
+        if got != want:
+            return False, 'second-run-results', [got, want, f'first run stopped after {stop_after} (how={how})']
+        stopped = (how == 0 and 0 < stop_after <= N) or (how == 1 and stop_after < N)
+        return True, ('after-stopped-run' if stopped else 'after-complete-run'), [len(first), n2]
+
+    cache = {}
+
+    def pick(a, hi):
+        v = 0
+        for i in range(hi):
+            if a == i:
+                v = i
+        return v
+
+    def body(args):
+        if _tracing():
+            key = (pick(args[0], N + 2), pick(args[1], 2), pick(args[2], 4))
+            from crosshair.tracers import NoTracing
+            with NoTracing():
+                cache.clear()
+                cache[key] = r = native(*key)
+                return r
+        return cache.get(tuple(args)) or native(*args)
+
+    body.explain = lambda args: repr(native(*args))
+    body.warm = [(N + 1, 0, 3), (1, 0, 3)]
+    return body
+
+
 def native_checks():
     """the same relation through the real parproc() with real pools (sampled: real scheduling is outside the solver's reach)"""
     import subprocess
@@ -236,6 +315,9 @@ def plan(tier, seed):
         obs.append(Ob(name=f'pmap_n{n}', factory='vt.props.c18:make_pmap', spec={'n': n, 'steps': steps},
                       params=[('workers', 1, 4 if n < 4 else 3), ('mask', 0, 2 ** n)] + [(f'o{i}', 0, 3) for i in range(steps)],
                       budget=900 if n < 5 else 3600, group='pmap', require_tags=('refilled',) if n >= 3 else ()))
+    for n in (3,):
+        obs.append(Ob(name=f'runs_n{n}', factory='vt.props.c18:make_runs', spec={'n': n, 'program': 'two-runs'},
+                      params=[('stop_after', 0, n + 2), ('how', 0, 2), ('n2', 0, 4)], budget=300, group='runs', require_tags=('after-stopped-run',)))
     return {
         'obligations': obs,
         'native': native_checks,
@@ -246,9 +328,10 @@ def plan(tier, seed):
                        'one), the worker count (1..3) and the subset of payloads that raise a declared exception are solver-chosen too. For every schedule the multiset of '
                        'yielded results is exactly one per payload, carrying the outcome or the captured exception, equals the sequential mode\'s multiset, and every task '
                        'was submitted exactly once. The solver enumerates the schedule variables; each path runs the real loop natively. One sampled run through real '
-                       'process pools is a by-product.',
+                       'process pools is a by-product. Two runs in one process: the first run is stopped by its consumer (result.stop.set()) or by a KeyboardInterrupt in a payload '
+                       'function at a solver-chosen point, the second, independent run must still yield one correct result per payload.',
         'functions_encoded': ['tatsu.parproc.pmap:active_pmap.executor_pmap', 'tatsu.parproc.parproc:parproc (sequential mode)', 'tatsu.parproc.task:taskproc/Task', 'tatsu.parproc.result:Result'],
         'bounds': f'payload lists of length 0..{4 if tier == "quick" else 5}, worker counts 1..3, every subset of raising payloads, every completion order of the pending futures',
-        'outside': 'real process/thread pools, pickling and OS scheduling (one sampled native run only); KeyboardInterrupt and stop-event paths; undeclared exceptions (they propagate by design)',
+        'outside': 'real process/thread pools, pickling and OS scheduling (one sampled native run only); what a STOPPED run itself yields; undeclared exceptions (they propagate by design)',
         'assumptions': ['stubs: executor class (subclass of ProcessPoolExecutor without processes), as_completed, memory_use, multiprocessing.Manager (stop event) in the sequential mode'],
     }
